@@ -10,6 +10,7 @@
    attribute is undeclared).  `dtree`/`infoset_d` is the same for the printed
    form (start tags with the xmlns declarations nsdeclarations() emits). *)
 From SV Require Import Lib.Base C05.Model C05.RenderProofs C05.RefitProofs C05.NormProofs C05.PromoteProofs.
+From SV Require Import C05.Text C05.TextProofs.
 
 (* ------------------------------------------------------------------ *)
 (* printing                                                            *)
@@ -137,6 +138,46 @@ Theorem genprefix_fresh : forall sc p,
   genprefix sc = Some p -> lookup p sc = None /\ exists k, p = gp k /\ (1 <= k <= 1023)%nat.
 Proof. exact genprefix_fresh_l. Qed.
 Print Assumptions genprefix_fresh.
+
+(* ------------------------------------------------------------------ *)
+(* character data: the text/attribute values of the tree reach the      *)
+(* receiving parser unchanged under prettyxml=True and =False           *)
+(* (`text : option N` of pel/itree are these strings, interned)         *)
+(* ------------------------------------------------------------------ *)
+
+(* what str() (pretty) and plain() write for a text is read back as that text by
+   an XML 1.0 processor (2.11 line ends, 4.1 references), CR / CRLF included *)
+Theorem wire_text_roundtrip : forall pretty s, read_text (wire_text pretty s) = s.
+Proof. exact wire_text_roundtrip_l. Qed.
+Print Assumptions wire_text_roundtrip.
+
+Theorem pretty_plain_same_text : forall s,
+  read_text (wire_text true s) = read_text (wire_text false s).
+Proof. exact pretty_plain_same_text_l. Qed.
+Print Assumptions pretty_plain_same_text.
+
+(* attribute values (serialised by one function under every setting): TAB, LF, CR
+   survive attribute-value normalisation (3.3.3) *)
+Theorem wire_attr_roundtrip : forall s, read_attr (wire_attr s) = s.
+Proof. exact attr_roundtrip_l. Qed.
+Print Assumptions wire_attr_roundtrip.
+
+(* the carriage-return / white-space references are needed: Text.escape() alone
+   (what a serialiser bypassing the shared helper writes) loses them *)
+Theorem escape_alone_loses_cr : exists s, read_text (escape s) <> s.
+Proof. exact escape_alone_loses_cr_l. Qed.
+Print Assumptions escape_alone_loses_cr.
+
+Theorem escape_alone_attr_loses_ws : exists s, read_attr (escape s) <> s.
+Proof. exact escape_alone_attr_loses_ws_l. Qed.
+Print Assumptions escape_alone_attr_loses_ws.
+
+Example wire_text_nonvacuous :
+  wire_text true [97; 13; 10; 38; 13; 98]%N =
+    [WChar 97; WRef 13; WChar 10; WEnt 38; WRef 13; WChar 98]%N /\
+  read_text [WChar 97; WChar 13; WChar 10; WChar 13; WChar 98]%N = [97; 10; 10; 98]%N /\
+  wire_attr [9; 34; 10]%N = [WRef 9; WEnt 34; WRef 10]%N.
+Proof. repeat split. Qed.
 
 (* ------------------------------------------------------------------ *)
 (* non-vacuity: a typical envelope satisfies every guard               *)
